@@ -1,19 +1,24 @@
 /-
-Model for C16 — call flags and manifest permissions (core Lean only).
+Model for C16 — call flags and manifest permissions (core Lean only). The whole-manifest part (validity, stack-item
+form) is Model/Flags/Manifest.lean.
 
 Mirrors, as written:
   pkg/smartcontract/callflag/call_flags.go      CallFlag bits, Has
   pkg/core/interop/context.go:520-535           SyscallHandler flag check (table = Generated.Interops)
-  pkg/core/native/interop.go:62-71              native method flag check (table = Generated.NativeMethods)
-  pkg/core/interop/contract/call.go:21-52       LoadToken (CALLT)
-  pkg/core/interop/contract/call.go:55-116      Call / callInternal (safe ⇒ drop Write|Notify, permission check)
-  pkg/core/interop/contract/call.go:157         child flags = caller's flags & requested
-  pkg/core/interop/contract/call.go:209-211     CallFromNative (flags All, no permission check)
+  pkg/core/native/interop.go:58-66              native method flag check (table = Generated.NativeMethods)
+  pkg/core/interop/contract/call.go:22-51       LoadToken (CALLT)
+  pkg/core/interop/contract/call.go:54-112      Call / callInternal (safe ⇒ drop Write|Notify; permission check on the
+                                                context's manifest from Domovoi on, on the stored one before)
+  pkg/core/interop/contract/call.go:158         child flags = caller's flags & requested
+  pkg/core/interop/contract/call.go:205-207     CallFromNative (flags All, not through callInternal)
   pkg/core/interop/runtime/engine.go:121-139    LoadScript (child = caller & ReadOnly & requested, not deployed)
-  pkg/smartcontract/manifest/permission.go:150-170, container.go:24-45, manifest.go:97-101
+  pkg/smartcontract/manifest/permission.go:149-171, container.go:24-45, manifest.go:97-101
+What a primitive MAY do (write / notify / start a context) is NOT hand-written: it is the regenerated call-graph
+table Generated.Effects (harness/cmd/extract/effects.go), per hardfork index.
 -/
 import NeoModel.Generated.Interops
 import NeoModel.Generated.NativeMethods
+import NeoModel.Generated.Effects
 
 namespace NeoModel.Flags
 
@@ -75,204 +80,30 @@ def wnc : Effects := ⟨true, true, true⟩
 def guarded (req : CallFlags) (e : Effects) : Bool :=
   (!e.write || req.write) && (!e.notify || req.notify) && (!e.call || req.call)
 
-/-- HAND-WRITTEN expectation table for system calls: name ↦ (effects, system-trigger-only).
-`System.Contract.CallNative` itself has no effect of its own: the native method it dispatches to is
-checked against the native table (native/interop.go:62). The two persist calls fail unless the
-trigger is OnPersist/PostPersist (native/interop.go:106,123), which only block processing sets. -/
-def syscallClass : List (String × Effects × Bool) := [
-  ("System.Contract.Call", c, false),
-  ("System.Contract.CallNative", ro, false),
-  ("System.Contract.CreateMultisigAccount", ro, false),
-  ("System.Contract.CreateStandardAccount", ro, false),
-  ("System.Contract.GetCallFlags", ro, false),
-  ("System.Contract.NativeOnPersist", wn, true),
-  ("System.Contract.NativePostPersist", wn, true),
-  ("System.Crypto.CheckMultisig", ro, false),
-  ("System.Crypto.CheckSig", ro, false),
-  ("System.Iterator.Next", ro, false),
-  ("System.Iterator.Value", ro, false),
-  ("System.Runtime.BurnGas", ro, false),
-  ("System.Runtime.CheckWitness", ro, false),
-  ("System.Runtime.CurrentSigners", ro, false),
-  ("System.Runtime.GasLeft", ro, false),
-  ("System.Runtime.GetAddressVersion", ro, false),
-  ("System.Runtime.GetCallingScriptHash", ro, false),
-  ("System.Runtime.GetEntryScriptHash", ro, false),
-  ("System.Runtime.GetExecutingScriptHash", ro, false),
-  ("System.Runtime.GetInvocationCounter", ro, false),
-  ("System.Runtime.GetNetwork", ro, false),
-  ("System.Runtime.GetNotifications", ro, false),
-  ("System.Runtime.GetRandom", ro, false),
-  ("System.Runtime.GetScriptContainer", ro, false),
-  ("System.Runtime.GetTime", ro, false),
-  ("System.Runtime.GetTrigger", ro, false),
-  ("System.Runtime.LoadScript", c, false),
-  ("System.Runtime.Log", n, false),
-  ("System.Runtime.Notify", n, false),
-  ("System.Runtime.Platform", ro, false),
-  ("System.Storage.AsReadOnly", ro, false),
-  ("System.Storage.Delete", w, false),
-  ("System.Storage.Find", ro, false),
-  ("System.Storage.Get", ro, false),
-  ("System.Storage.GetContext", ro, false),
-  ("System.Storage.GetReadOnlyContext", ro, false),
-  ("System.Storage.Local.Delete", w, false),
-  ("System.Storage.Local.Find", ro, false),
-  ("System.Storage.Local.Get", ro, false),
-  ("System.Storage.Local.Put", w, false),
-  ("System.Storage.Put", w, false)
-]
+/-- the write / notify / call bits of a regenerated may-effect set (`Generated.Effects`: bit 1 write storage,
+bit 3 notify, bit 2 start an execution context — the bit positions of the call flags that guard them). -/
+def effOfBits (n : Nat) : Effects := ⟨n.testBit 1, n.testBit 3, n.testBit 2⟩
 
-def classifySyscall (name : String) : Option (Effects × Bool) :=
-  (syscallClass.find? (fun r => r.1 == name)).map (·.2)
+/-- REGENERATED may-effect row of a system call (call-graph walk of its handler, `harness/cmd/extract/effects.go`):
+(may-effect bits at hardfork index `hf`, usable by the system triggers only). Bits of an index outside the
+table default to "everything". `System.Contract.CallNative` itself only dispatches (bit 32): the native method it
+runs is checked against the native table (native/interop.go:63). The two persist calls start with
+`if ic.Trigger != trigger.OnPersist/PostPersist { return error }` (native/interop.go:99,117), triggers that only
+block processing sets. -/
+def syscallBits (hf : Nat) (name : String) : Option (Nat × Bool) :=
+  (Generated.Effects.syscalls.find? (fun r => r.1 == name)).map fun r =>
+    (r.2.2.2.getD hf 255, r.2.2.1 == "OnPersist" || r.2.2.1 == "PostPersist")
 
-/-- HAND-WRITTEN expectation table for native methods, keyed by
-(contract, method, parameter count, index of the activation hardfork). -/
-def nativeClass : List (String × String × Nat × Nat × Effects) := [
-  -- ContractManagement
-  ("ContractManagement", "deploy", 2, 0, wnc),
-  ("ContractManagement", "deploy", 3, 0, wnc),
-  ("ContractManagement", "destroy", 0, 0, wnc),
-  ("ContractManagement", "getContract", 1, 0, ro),
-  ("ContractManagement", "getContractById", 1, 0, ro),
-  ("ContractManagement", "getContractHashes", 0, 0, ro),
-  ("ContractManagement", "getMinimumDeploymentFee", 0, 0, ro),
-  ("ContractManagement", "hasMethod", 3, 0, ro),
-  ("ContractManagement", "isContract", 1, 5, ro),
-  ("ContractManagement", "setMinimumDeploymentFee", 1, 0, w),
-  ("ContractManagement", "update", 2, 0, wnc),
-  ("ContractManagement", "update", 3, 0, wnc),
-  -- StdLib
-  ("StdLib", "atoi", 1, 0, ro),
-  ("StdLib", "atoi", 2, 0, ro),
-  ("StdLib", "base58CheckDecode", 1, 0, ro),
-  ("StdLib", "base58CheckEncode", 1, 0, ro),
-  ("StdLib", "base58Decode", 1, 0, ro),
-  ("StdLib", "base58Encode", 1, 0, ro),
-  ("StdLib", "base64Decode", 1, 0, ro),
-  ("StdLib", "base64Encode", 1, 0, ro),
-  ("StdLib", "base64UrlDecode", 1, 5, ro),
-  ("StdLib", "base64UrlEncode", 1, 5, ro),
-  ("StdLib", "deserialize", 1, 0, ro),
-  ("StdLib", "hexDecode", 1, 6, ro),
-  ("StdLib", "hexEncode", 1, 6, ro),
-  ("StdLib", "itoa", 1, 0, ro),
-  ("StdLib", "itoa", 2, 0, ro),
-  ("StdLib", "jsonDeserialize", 1, 0, ro),
-  ("StdLib", "jsonSerialize", 1, 0, ro),
-  ("StdLib", "memoryCompare", 2, 0, ro),
-  ("StdLib", "memorySearch", 2, 0, ro),
-  ("StdLib", "memorySearch", 3, 0, ro),
-  ("StdLib", "memorySearch", 4, 0, ro),
-  ("StdLib", "serialize", 1, 0, ro),
-  ("StdLib", "strLen", 1, 0, ro),
-  ("StdLib", "stringSplit", 2, 0, ro),
-  ("StdLib", "stringSplit", 3, 0, ro),
-  -- CryptoLib
-  ("CryptoLib", "bls12381Add", 2, 0, ro),
-  ("CryptoLib", "bls12381Deserialize", 1, 0, ro),
-  ("CryptoLib", "bls12381Equal", 2, 0, ro),
-  ("CryptoLib", "bls12381Mul", 3, 0, ro),
-  ("CryptoLib", "bls12381Pairing", 2, 0, ro),
-  ("CryptoLib", "bls12381Serialize", 1, 0, ro),
-  ("CryptoLib", "keccak256", 1, 3, ro),
-  ("CryptoLib", "murmur32", 2, 0, ro),
-  ("CryptoLib", "recoverSecp256K1", 2, 5, ro),
-  ("CryptoLib", "ripemd160", 1, 0, ro),
-  ("CryptoLib", "sha256", 1, 0, ro),
-  ("CryptoLib", "verifyWithECDsa", 4, 0, ro),
-  ("CryptoLib", "verifyWithEd25519", 3, 5, ro),
-  -- LedgerContract
-  ("LedgerContract", "currentHash", 0, 0, ro),
-  ("LedgerContract", "currentIndex", 0, 0, ro),
-  ("LedgerContract", "getBlock", 1, 0, ro),
-  ("LedgerContract", "getTransaction", 1, 0, ro),
-  ("LedgerContract", "getTransactionFromBlock", 2, 0, ro),
-  ("LedgerContract", "getTransactionHeight", 1, 0, ro),
-  ("LedgerContract", "getTransactionSigners", 1, 0, ro),
-  ("LedgerContract", "getTransactionVMState", 1, 0, ro),
-  -- NeoToken
-  ("NeoToken", "balanceOf", 1, 0, ro),
-  ("NeoToken", "decimals", 0, 0, ro),
-  ("NeoToken", "getAccountState", 1, 0, ro),
-  ("NeoToken", "getAllCandidates", 0, 0, ro),
-  ("NeoToken", "getCandidateVote", 1, 0, ro),
-  ("NeoToken", "getCandidates", 0, 0, ro),
-  ("NeoToken", "getCommittee", 0, 0, ro),
-  ("NeoToken", "getCommitteeAddress", 0, 3, ro),
-  ("NeoToken", "getGasPerBlock", 0, 0, ro),
-  ("NeoToken", "getNextBlockValidators", 0, 0, ro),
-  ("NeoToken", "getRegisterPrice", 0, 0, ro),
-  ("NeoToken", "onNEP17Payment", 3, 5, wn),
-  ("NeoToken", "registerCandidate", 1, 0, wn),
-  ("NeoToken", "registerCandidate", 1, 5, wn),
-  ("NeoToken", "setGasPerBlock", 1, 0, w),
-  ("NeoToken", "setRegisterPrice", 1, 0, w),
-  ("NeoToken", "symbol", 0, 0, ro),
-  ("NeoToken", "totalSupply", 0, 0, ro),
-  ("NeoToken", "transfer", 4, 0, wnc),
-  ("NeoToken", "unclaimedGas", 2, 0, ro),
-  ("NeoToken", "unregisterCandidate", 1, 0, wn),
-  ("NeoToken", "unregisterCandidate", 1, 5, wn),
-  ("NeoToken", "vote", 2, 0, wnc),
-  ("NeoToken", "vote", 2, 5, wnc),
-  -- GasToken
-  ("GasToken", "balanceOf", 1, 0, ro),
-  ("GasToken", "decimals", 0, 0, ro),
-  ("GasToken", "symbol", 0, 0, ro),
-  ("GasToken", "totalSupply", 0, 0, ro),
-  ("GasToken", "transfer", 4, 0, wnc),
-  -- PolicyContract
-  ("PolicyContract", "blockAccount", 1, 0, w),
-  ("PolicyContract", "blockAccount", 1, 6, wnc),
-  ("PolicyContract", "getAttributeFee", 1, 0, ro),
-  ("PolicyContract", "getBlockedAccounts", 0, 6, ro),
-  ("PolicyContract", "getExecFeeFactor", 0, 0, ro),
-  ("PolicyContract", "getExecPicoFeeFactor", 0, 6, ro),
-  ("PolicyContract", "getFeePerByte", 0, 0, ro),
-  ("PolicyContract", "getMaxTraceableBlocks", 0, 5, ro),
-  ("PolicyContract", "getMaxValidUntilBlockIncrement", 0, 5, ro),
-  ("PolicyContract", "getMillisecondsPerBlock", 0, 5, ro),
-  ("PolicyContract", "getStoragePrice", 0, 0, ro),
-  ("PolicyContract", "getWhitelistFeeContracts", 0, 6, ro),
-  ("PolicyContract", "isBlocked", 1, 0, ro),
-  ("PolicyContract", "recoverFund", 2, 6, wnc),
-  ("PolicyContract", "removeWhitelistFeeContract", 3, 6, wn),
-  ("PolicyContract", "setAttributeFee", 2, 0, w),
-  ("PolicyContract", "setExecFeeFactor", 1, 0, w),
-  ("PolicyContract", "setFeePerByte", 1, 0, w),
-  ("PolicyContract", "setMaxTraceableBlocks", 1, 5, w),
-  ("PolicyContract", "setMaxValidUntilBlockIncrement", 1, 5, w),
-  ("PolicyContract", "setMillisecondsPerBlock", 1, 5, wn),
-  ("PolicyContract", "setStoragePrice", 1, 0, w),
-  ("PolicyContract", "setWhitelistFeeContract", 4, 6, wn),
-  ("PolicyContract", "unblockAccount", 1, 0, w),
-  -- RoleManagement
-  ("RoleManagement", "designateAsRole", 2, 0, wn),
-  ("RoleManagement", "getDesignatedByRole", 2, 0, ro),
-  -- OracleContract
-  ("OracleContract", "finish", 0, 0, wnc),
-  ("OracleContract", "getPrice", 0, 0, ro),
-  ("OracleContract", "request", 5, 0, wn),
-  ("OracleContract", "setPrice", 1, 0, w),
-  ("OracleContract", "verify", 0, 0, ro),
-  -- Notary
-  ("Notary", "balanceOf", 1, 5, ro),
-  ("Notary", "expirationOf", 1, 5, ro),
-  ("Notary", "getMaxNotValidBeforeDelta", 0, 5, ro),
-  ("Notary", "lockDepositUntil", 2, 5, w),
-  ("Notary", "onNEP17Payment", 3, 5, w),
-  ("Notary", "setMaxNotValidBeforeDelta", 1, 5, w),
-  ("Notary", "verify", 1, 5, ro),
-  ("Notary", "withdraw", 2, 5, wnc),
-  -- Treasury
-  ("Treasury", "onNEP11Payment", 4, 6, ro),
-  ("Treasury", "onNEP17Payment", 3, 6, ro),
-  ("Treasury", "verify", 0, 6, ro)
-]
+def classifySyscall (hf : Nat) (name : String) : Option (Effects × Bool) :=
+  (syscallBits hf name).map fun r => (effOfBits r.1, r.2)
 
-def classifyNative (m : Generated.NativeMethods.Entry) : Option Effects :=
-  (nativeClass.find? (fun r => r.1 == m.contract && r.2.1 == m.name && r.2.2.1 == m.nparams && r.2.2.2.1 == m.activeFrom)).map (·.2.2.2.2)
+/-- REGENERATED may-effect bits of the handler that serves native method descriptor `m` at hardfork index `hf`. -/
+def nativeBits (hf : Nat) (m : Generated.NativeMethods.Entry) : Option Nat :=
+  (Generated.Effects.natives.find? (fun r => r.1 == m.contract && r.2.1 == m.name && r.2.2.1 == m.nparams && r.2.2.2.1.contains hf)).map
+    (fun r => r.2.2.2.2.2.getD hf 255)
+
+def classifyNative (hf : Nat) (m : Generated.NativeMethods.Entry) : Option Effects :=
+  (nativeBits hf m).map effOfBits
 
 
 /-- required flags of a native method at hardfork index `hf` (native/interop.go:57-66):
@@ -286,11 +117,11 @@ def nativeReq (hf : Nat) (m : Generated.NativeMethods.Entry) : CallFlags :=
 def activeAt (hf : Nat) (m : Generated.NativeMethods.Entry) : Bool :=
   decide (m.activeFrom ≤ hf) && (m.activeTill == 0 || decide (hf < m.activeTill))
 
-/-- the unguarded (descriptor, hardfork, effect) triples of the native table: an effect the hand-written
-table expects and the flags required at that hardfork do not cover. -/
+/-- the unguarded (descriptor, hardfork, effect) triples of the native table: a may-effect of the handler (regenerated
+table) that the flags required at that hardfork do not cover. -/
 def nativeViolationsAt (hf : Nat) : List (String × String × Nat × String) :=
   (Generated.NativeMethods.table.filter (activeAt hf)).flatMap fun m =>
-    match classifyNative m with
+    match classifyNative hf m with
     | none => [(m.contract, m.name, m.nparams, "unclassified")]
     | some e =>
       let r := nativeReq hf m
@@ -357,12 +188,31 @@ structure Target where
   safe : Bool
 deriving DecidableEq, Repr
 
+/-- how an execution context was created. -/
+inductive Via where
+  /-- the entry script of the execution -/
+  | entry
+  /-- System.Contract.Call → callInternal (call.go:54-112) -/
+  | call
+  /-- CALLT → LoadToken → callInternal (call.go:22-51) -/
+  | token
+  /-- System.Runtime.LoadScript (engine.go:121-139) -/
+  | script
+  /-- contract.CallFromNative → callExFromNative, NOT through callInternal (call.go:205-207) -/
+  | native
+deriving DecidableEq, Repr
+
 /-- an execution context: its call flags, the manifest when the context runs a deployed contract
-(`ctx.IsDeployed()`, i.e. NEF ≠ nil), and whether it was entered through a call to a safe method. -/
+(`ctx.IsDeployed()`, i.e. NEF ≠ nil), whether it was entered through a call to a safe method that went through
+callInternal; and, for the characterisation of the paths: how it was created, whether the method it runs is
+marked safe in the callee's manifest, which flags its creator requested. -/
 structure Frame where
   flags : CallFlags
   manifest : Option Manifest
   viaSafe : Bool
+  via : Via := .entry
+  safeTarget : Bool := false
+  requested : CallFlags := CallFlags.all
 deriving DecidableEq, Repr
 
 /-- constants of the call path, regenerated from the source (see `Params.real`). -/
@@ -375,14 +225,20 @@ structure Params where
   loadScriptMask : CallFlags
   /-- flags requested by CallFromNative (call.go:210) -/
   fromNative : CallFlags
+  /-- callInternal takes the caller's manifest from the executing context (`ctx.GetManifest()`, from Domovoi on,
+  call.go:99-100) rather than from ContractManagement's storage (`ic.GetContract(current hash)`, call.go:102-105) -/
+  callerFromContext : Bool := true
 deriving Repr
 
 inductive Instr where
   /-- a system call or a native method body that does not start a call -/
   | prim (p : Prim)
   /-- System.Contract.Call (`viaToken = false`, `p` = its table entry, requested flags from the stack) or CALLT
-  (`viaToken = true`, `p` = LoadToken's literal check, requested flags from the NEF method token); callee -/
-  | call (p : Prim) (viaToken : Bool) (requested : CallFlags) (t : Target)
+  (`viaToken = true`, `p` = LoadToken's literal check, requested flags from the NEF method token); callee; and what
+  `ic.GetContract(<executing script hash>)` answers at that moment (`none`: not found — consulted only before
+  Domovoi; it differs from the context's manifest when the contract was updated or destroyed earlier in the same
+  execution) -/
+  | call (p : Prim) (viaToken : Bool) (requested : CallFlags) (t : Target) (stored : Option Manifest := none)
   /-- System.Runtime.LoadScript (`p` = its table entry) -/
   | loadScript (p : Prim) (requested : CallFlags)
   /-- a native method `p` calling a contract through contract.CallFromNative -/
@@ -394,7 +250,7 @@ deriving Repr
 /-- the primitive whose flag check guards the instruction. -/
 def Instr.prim? : Instr → Option Prim
   | .prim p => some p
-  | .call p _ _ _ => some p
+  | .call p _ _ _ _ => some p
   | .loadScript p _ => some p
   | .nativeCall p _ => some p
   | .ret => Option.none
@@ -409,6 +265,8 @@ structure Event where
   stack : List Frame
   /-- for calls made by `Instr.call`: the callee -/
   target : Option Target
+  /-- for calls made by `Instr.call`: the manifest `CanCall` was evaluated on (`none`: no permission check ran) -/
+  checked : Option Manifest := none
 deriving Repr
 
 structure State where
@@ -420,24 +278,35 @@ structure State where
   halted : Bool
 deriving Repr
 
+/-- the entry context of an execution (or any context the statements start from). -/
+def Frame.entry (flags : CallFlags) (manifest : Option Manifest) : Frame := { flags := flags, manifest := manifest, viaSafe := false }
+
 def State.init (f : Frame) : State := ⟨[f], [], false⟩
 
 def halt (s : State) : State := { s with halted := true }
 
 /-- events of the non-calling effects of `p` performed on stack `st`. -/
 def primEvents (p : Prim) (st : List Frame) : List Event :=
-  (if p.eff.notify then [⟨.notify, st, none⟩] else []) ++ (if p.eff.write then [⟨.write, st, none⟩] else [])
+  (if p.eff.notify then [⟨.notify, st, none, none⟩] else []) ++ (if p.eff.write then [⟨.write, st, none, none⟩] else [])
 
 /-- child flags of a contract call: the safe-method drop of the path taken (Call / LoadToken → callInternal, call.go:93-95) then callExFromNative (call.go:157). -/
 def childFlags (P : Params) (viaToken : Bool) (cur : CallFlags) (requested : CallFlags) (safe : Bool) : CallFlags :=
   cur.inter (if safe then requested.minus (if viaToken then P.safeDropToken else P.safeDrop) else requested)
 
-/-- the permission check of callInternal (call.go:96-110): only for non-safe methods called from a deployed context. -/
-def permitted (cur : Frame) (t : Target) : Bool :=
-  if t.safe then true
+/-- the manifest callInternal consults for the permission check (call.go:97-106): none for a safe callee or a caller
+that is not a deployed contract; from Domovoi on the executing context's manifest; before, the caller's manifest
+as ContractManagement's storage has it now (none if the contract is not found any more). -/
+def consulted (P : Params) (cur : Frame) (t : Target) (stored : Option Manifest) : Option Manifest :=
+  if t.safe then none
   else match cur.manifest with
-    | none => true
-    | some m => m.canCall t.hash t.manifest t.method
+    | none => none
+    | some m => if P.callerFromContext then some m else stored
+
+/-- the permission check of callInternal (call.go:107-109): `mfst != nil && !mfst.CanCall(…)` refuses. -/
+def permitted (P : Params) (cur : Frame) (t : Target) (stored : Option Manifest) : Bool :=
+  match consulted P cur t stored with
+  | none => true
+  | some m => m.canCall t.hash t.manifest t.method
 
 /-- one instruction. A failed check is a FAULT (`halt`): nothing else happens. (An exception caught by an
 enclosing TRY continues in an ancestor context; for the safety statements below that run is the run of
@@ -451,20 +320,20 @@ def step (P : Params) (s : State) (i : Instr) : State :=
     match i with
     | .prim p =>
       if cur.flags.has p.req then { s with events := primEvents p s.stack ++ s.events } else halt s
-    | .call p viaToken requested t =>
-      if cur.flags.has p.req && p.eff.call && permitted cur t then
-        let child : Frame := ⟨childFlags P viaToken cur.flags requested t.safe, some t.manifest, t.safe⟩
-        { s with stack := child :: s.stack, events := ⟨.call, s.stack, some t⟩ :: s.events }
+    | .call p viaToken requested t stored =>
+      if cur.flags.has p.req && p.eff.call && permitted P cur t stored then
+        let child : Frame := ⟨childFlags P viaToken cur.flags requested t.safe, some t.manifest, t.safe, if viaToken then .token else .call, t.safe, requested⟩
+        { s with stack := child :: s.stack, events := ⟨.call, s.stack, some t, consulted P cur t stored⟩ :: s.events }
       else halt s
     | .loadScript p requested =>
       if cur.flags.has p.req && p.eff.call then
-        let child : Frame := ⟨(cur.flags.inter P.loadScriptMask).inter requested, none, false⟩
-        { s with stack := child :: s.stack, events := ⟨.call, s.stack, none⟩ :: s.events }
+        let child : Frame := ⟨(cur.flags.inter P.loadScriptMask).inter requested, none, false, .script, false, requested⟩
+        { s with stack := child :: s.stack, events := ⟨.call, s.stack, none, none⟩ :: s.events }
       else halt s
     | .nativeCall p t =>
       if cur.flags.has p.req && p.eff.call then
-        let child : Frame := ⟨cur.flags.inter P.fromNative, some t.manifest, false⟩
-        { s with stack := child :: s.stack, events := primEvents p s.stack ++ (⟨.call, s.stack, none⟩ :: s.events) }
+        let child : Frame := ⟨cur.flags.inter P.fromNative, some t.manifest, false, .native, t.safe, P.fromNative⟩
+        { s with stack := child :: s.stack, events := primEvents p s.stack ++ (⟨.call, s.stack, none, none⟩ :: s.events) }
       else halt s
     | .ret =>
       match rest with
@@ -478,19 +347,25 @@ def Params.real : Params :=
   { safeDrop := CallFlags.ofNat ((if Generated.Interops.callViaInternal then Generated.Interops.safeDropMask else 0) ||| Generated.Interops.safeDropCallOnly)
     safeDropToken := CallFlags.ofNat ((if Generated.Interops.tokenViaInternal then Generated.Interops.safeDropMask else 0) ||| Generated.Interops.safeDropTokenOnly)
     loadScriptMask := CallFlags.ofNat Generated.Interops.loadScriptMask
-    fromNative := CallFlags.ofNat Generated.Interops.callFromNativeFlags }
+    fromNative := CallFlags.ofNat Generated.Interops.callFromNativeFlags
+    callerFromContext := true }
 
-/-- table entry of a system call as a primitive (none: unknown or unclassified). -/
-def syscallPrim (name : String) : Option Prim :=
-  match Generated.Interops.table.find? (fun e => e.name == name), classifySyscall name with
+/-- the constants at hardfork index `hf`: the caller's manifest comes from the executing context from the hardfork
+named in call.go:99 on (`Generated.Interops.callerManifestFromContextSince`, Domovoi). -/
+def Params.realAt (hf : Nat) : Params :=
+  { Params.real with callerFromContext := decide (Generated.Interops.callerManifestFromContextSince ≤ hf) }
+
+/-- table entry of a system call as a primitive at hardfork index `hf` (none: unknown or without a may-effect row). -/
+def syscallPrim (hf : Nat) (name : String) : Option Prim :=
+  match Generated.Interops.table.find? (fun e => e.name == name), classifySyscall hf name with
   | some e, some (eff, _) => some ⟨CallFlags.ofNat e.flags, eff⟩
   | _, _ => none
 
-/-- CALLT: the literal check of LoadToken (call.go:24); it starts a call. -/
-def callTPrim : Prim := ⟨CallFlags.ofNat Generated.Interops.loadTokenReq, c⟩
+/-- CALLT: the literal check of LoadToken (call.go:24) and the regenerated may-effects of contract.LoadToken. -/
+def callTPrim (hf : Nat) : Prim := ⟨CallFlags.ofNat Generated.Interops.loadTokenReq, effOfBits (Generated.Effects.callt.2.getD hf 255)⟩
 
 /-- native method descriptor as a primitive at hardfork `hf`. -/
 def nativePrim (hf : Nat) (m : Generated.NativeMethods.Entry) : Option Prim :=
-  (classifyNative m).map fun e => ⟨nativeReq hf m, e⟩
+  (classifyNative hf m).map fun e => ⟨nativeReq hf m, e⟩
 
 end NeoModel.Flags
